@@ -515,4 +515,172 @@ theorem ex_sq_columns : ColumnsInRatios exSquare ["paid_loss"] (exDraws 0 0).I :
       prev.devLag = 0 := by decide +kernel
   rw [hprev c hc hlag prev hp, hlag, ex_sq_ratios]
   rcases hr2 with rfl | rfl <;> simp
+/-! ### `ColumnsInRatios` from explicit regularity hypotheses (`RegularLags`) -/
+
+/-- `_safe_ata_division` of the model and of the Spec agree on values that are not arrays -/
+theorem safeAtaDiv_eq_safeDiv {x y : Option Val} {r : Rat} (h : safeAtaDiv x y = .ok r) : r = safeDiv x y := by
+  unfold safeAtaDiv at h
+  split at h
+  · cases h
+  · rename_i a ha
+    split at h
+    · cases h
+    · rename_i b hb
+      cases h
+      have key : ∀ (z : Option Val) (q : Rat), safeOperand z = .ok q →
+          q = (if isFalsy z then 1 else (num? z).getD 1) := by
+        intro z q hz
+        match z, hz with
+        | none, hz => cases hz; rfl
+        | some .none, hz => cases hz; rfl
+        | some (.int i), hz =>
+          simp only [safeOperand, Except.ok.injEq] at hz
+          subst hz; simp [isFalsy, num?]
+        | some (.flt v), hz =>
+          simp only [safeOperand, Except.ok.injEq] at hz
+          subst hz; simp [isFalsy, num?]
+        | some (.arr _ _ _), hz => cases hz
+      rw [safeDiv, ← key x a ha, ← key y b hb]
+
+theorem mem_dedup_of_mem {α} [BEq α] [LawfulBEq α] {a : α} {l : List α} (h : a ∈ l) : a ∈ dedup l := by
+  unfold dedup
+  have gen : ∀ (l : List α) (acc : List α), (a ∈ acc ∨ a ∈ l) →
+      a ∈ l.foldl (fun acc a => if acc.contains a then acc else acc ++ [a]) acc := by
+    intro l
+    induction l with
+    | nil => intro acc h; simpa using h
+    | cons b l ih =>
+      intro acc h
+      rw [List.foldl_cons]
+      apply ih
+      rcases h with h | h
+      · left; split
+        · exact h
+        · exact List.mem_append_left _ h
+      · rcases List.mem_cons.mp h with rfl | h
+        · left; split
+          · rename_i hc; simpa using hc
+          · simp
+        · right; exact h
+  exact gen l [] (Or.inr h)
+
+theorem mem_periodsOf {s : List Cell} {c : Cell} (hc : c ∈ s) : (c.ps, c.pe) ∈ periodsOf s := by
+  unfold periodsOf
+  rw [(List.mergeSort_perm _ _).mem_iff]
+  refine mem_dedup_of_mem ?_
+  exact List.mem_map.mpr ⟨c, hc, rfl⟩
+
+/-- the factor of two cells of one period at lags `pl`, `l` is among the Spec's `ratios`, when (period, lag) is
+unique in the slice -/
+theorem mem_ratios {s : List Cell} {a b : Cell} {f : String}
+    (huniq : ∀ x ∈ s, ∀ y ∈ s, (x.ps, x.pe) = (y.ps, y.pe) → x.devLag = y.devLag → x = y)
+    (ha : a ∈ s) (hb : b ∈ s) (hp : (b.ps, b.pe) = (a.ps, a.pe)) :
+    safeDiv (b.values.get? f) (a.values.get? f) ∈ ratios s a.devLag b.devLag f := by
+  unfold ratios
+  rw [List.mem_filterMap]
+  refine ⟨(a.ps, a.pe), mem_periodsOf ha, ?_⟩
+  have fa : s.find? (fun c => (c.ps, c.pe) == (a.ps, a.pe) && c.devLag == a.devLag) = some a := by
+    cases hf : s.find? (fun c => (c.ps, c.pe) == (a.ps, a.pe) && c.devLag == a.devLag) with
+    | none =>
+      have := List.find?_eq_none.mp hf a ha
+      simp at this
+    | some x =>
+      have hx := List.find?_some hf
+      simp only [Bool.and_eq_true, beq_iff_eq] at hx
+      rw [huniq x (List.mem_of_find?_eq_some hf) a ha hx.1 hx.2]
+  have fb : s.find? (fun c => (c.ps, c.pe) == (a.ps, a.pe) && c.devLag == b.devLag) = some b := by
+    cases hf : s.find? (fun c => (c.ps, c.pe) == (a.ps, a.pe) && c.devLag == b.devLag) with
+    | none =>
+      have := List.find?_eq_none.mp hf b hb
+      simp [hp] at this
+    | some x =>
+      have hx := List.find?_some hf
+      simp only [Bool.and_eq_true, beq_iff_eq] at hx
+      rw [huniq x (List.mem_of_find?_eq_some hf) b hb (hx.1.trans hp.symm) hx.2]
+  simp only [fa, fb]
+
+/-- an entry of the model's empirical table comes from one pair of consecutive same-period cells of the clipped slice -/
+theorem ataTable_entry {s : List Cell} {fields : List String} {A : Factors} {lag : Rat}
+    {tbl : List (String × List Rat)} {f : String} {col : List Rat} {r : Rat}
+    (hA : ataTable s fields = .ok A) (h1 : (lag, tbl) ∈ A) (h2 : (f, col) ∈ tbl) (h3 : r ∈ col) :
+    ∃ pl cl nx pv, (lag, pl) ∈ (sortedLags s).tail.zip (sortedLags s) ∧ clipLags s pl lag = .ok cl ∧
+      (nx, pv) ∈ lagPairs cl ∧ safeAtaDiv (nx.values.get? f) (pv.values.get? f) = .ok r := by
+  unfold ataTable at hA
+  obtain ⟨lp, hlp, hrel⟩ := forall₂_mem_right (mapMExcept_forall₂ hA) _ h1
+  split at hrel
+  · cases hrel
+  · rename_i cl hcl
+    split at hrel
+    · cases hrel
+    · rename_i t ht
+      simp only [Except.ok.injEq, Prod.mk.injEq] at hrel
+      obtain ⟨hl, rfl⟩ := hrel
+      obtain ⟨f', _, hcolm⟩ := forall₂_mem_right (mapMExcept_forall₂ ht) _ h2
+      unfold ataColumn at hcolm
+      split at hcolm
+      · cases hcolm
+      · rename_i rs hrs
+        simp only [Except.ok.injEq, Prod.mk.injEq] at hcolm
+        obtain ⟨rfl, rfl⟩ := hcolm
+        obtain ⟨p, hp, hdiv⟩ := forall₂_mem_right (mapMExcept_forall₂ hrs) _ h3
+        refine ⟨lp.2, cl, p.1, p.2, ?_, ?_, hp, hdiv⟩
+        · rw [← hl]; exact hlp
+        · rw [← hl]; exact hcl
+
+theorem lagPairs_mem {s cl : List Cell} {lo hi : Rat} (hcl : clipLags s lo hi = .ok cl) {nx pv : Cell}
+    (h : (nx, pv) ∈ lagPairs cl) : nx ∈ s ∧ pv ∈ s ∧ (nx.ps, nx.pe) = (pv.ps, pv.pe) := by
+  unfold lagPairs at h
+  obtain ⟨hz, hper⟩ := List.mem_filter.mp h
+  have hm := List.of_mem_zip hz
+  have hsub : ∀ c ∈ cl, c ∈ s := fun c hc =>
+    (List.mem_filter.mp ((ofCells_perm' hcl).mem_iff.mp hc)).1
+  exact ⟨hsub _ (List.mem_of_mem_tail hm.1), hsub _ hm.2, by simpa using hper⟩
+
+/-- regularity of an age-to-age slice, as far as the empirical factors are concerned -/
+structure RegularLags (s : List Cell) : Prop where
+  /-- a period has at most one cell at a development lag -/
+  uniq : ∀ x ∈ s, ∀ y ∈ s, (x.ps, x.pe) = (y.ps, y.pe) → x.devLag = y.devLag → x = y
+  /-- no period skips a lag: the lag of a cell's row predecessor is the lag preceding the cell's lag in
+  `triangle.dev_lags()` -/
+  noSkip : ∀ c ∈ s, ∀ prev,
+    (s.filter fun d => (d.ps, d.pe) == (c.ps, c.pe) && d.devLag < c.devLag).getLast? = some prev →
+    ∀ pl, (c.devLag, pl) ∈ (sortedLags s).tail.zip (sortedLags s) → pl = prev.devLag
+  /-- in the triangle clipped to two consecutive lags `pl < l`, consecutive cells of one period sit at `pl` and `l`
+  (derivable from `SliceLayout` and sortedness of the lags; taken as a hypothesis here) -/
+  clipEnds : ∀ l pl, (l, pl) ∈ (sortedLags s).tail.zip (sortedLags s) → ∀ cl, clipLags s pl l = .ok cl →
+    ∀ nx pv, (nx, pv) ∈ lagPairs cl → nx.devLag = l ∧ pv.devLag = pl
+
+theorem columnsInRatios_of_regular {s : List Cell} (R : RegularLags s) (fields : List String) (I : IdxTable) :
+    ColumnsInRatios s fields I := by
+  intro F hF c hc prev hp f r hr
+  obtain ⟨A, tbl, col, hA, h1, h2, h3⟩ := resampledAtas_member hF hr
+  obtain ⟨pl, cl, nx, pv, hz, hcl, hpair, hdiv⟩ := ataTable_entry hA h1 h2 h3
+  have hpl := R.noSkip c hc prev hp pl hz
+  obtain ⟨hnl, hpvl⟩ := R.clipEnds _ _ hz cl hcl nx pv hpair
+  obtain ⟨hnx, hpv, hper⟩ := lagPairs_mem hcl hpair
+  rw [safeAtaDiv_eq_safeDiv hdiv, ← hpl, ← hnl, ← hpvl]
+  exact mem_ratios R.uniq hpv hnx hper
+
+theorem ex_sq_zip : (sortedLags exSquare).tail.zip (sortedLags exSquare) = [((12 : Rat), (0 : Rat))] := by
+  rw [ex_sq_lags]; rfl
+
+/-- closed inhabitant: the 2 × 2 square is regular -/
+theorem ex_sq_regular : RegularLags exSquare := by
+  refine ⟨by decide +kernel, ?_, ?_⟩
+  · intro c hc prev hp pl hz
+    rw [ex_sq_zip] at hz
+    simp only [List.mem_cons, Prod.mk.injEq, List.not_mem_nil, or_false] at hz
+    obtain ⟨hl, rfl⟩ := hz
+    have hprev : ∀ c ∈ exSquare, c.devLag = 12 → ∀ prev,
+        (exSquare.filter fun d => (d.ps, d.pe) == (c.ps, c.pe) && d.devLag < c.devLag).getLast? = some prev →
+        prev.devLag = 0 := by decide +kernel
+    exact (hprev c hc hl prev hp).symm
+  · intro l pl hz cl hcl nx pv hpair
+    rw [ex_sq_zip] at hz
+    simp only [List.mem_cons, Prod.mk.injEq, List.not_mem_nil, or_false] at hz
+    obtain ⟨rfl, rfl⟩ := hz
+    rw [ex_sq_clip] at hcl
+    cases hcl
+    have : ∀ p ∈ lagPairs exSquare, p.1.devLag = 12 ∧ p.2.devLag = 0 := by decide +kernel
+    exact this (nx, pv) hpair
 end Bermuda.Resample
